@@ -88,13 +88,25 @@ Theorem C13_frame :
   exists s, find_session (sessions (expire st)) id = Some s /\ s_changes s <> [] /\
     running st' = s_cand s /\ startup st' = s_cand s /\ sfile st' = Some (scrub g (s_cand s)) /\
     (frr st' = frr st \/ frr st' = Some (running st')) /\
-    (forall p, ~ In p (map c_path (s_changes s)) -> get_leaf (running st') p = get_leaf (running st) p) /\
-    (forall c, has_cont (running st) c = true -> has_cont (running st') c = true) /\
+    (forall p, touched (s_changes s) p = false -> get_leaf (running st') p = get_leaf (running st) p) /\
+    (forall c, has_cont (running st) c = true -> has_cont (running st') c = true \/ touched (s_changes s) c = true) /\
     (forall c, has_cont (running st') c = true -> has_cont (running st) c = true \/
                exists p, In p (map c_path (s_changes s)) /\ is_prefix c p) /\
     rolled evs = [].
 Proof. intros var reg g r shared ops id f st' evs HV HP st H. eapply frame; eauto. apply inv_run; auto. apply inv_init. Qed.
 Print Assumptions C13_frame.
+
+(* WHOLE-ENTRY SET.  A successful Set of a struct-valued path (interfaces.<*>, vrfs.<*>, ... with a pointer to
+   a struct) replaces the entry: below the path only the fields of the new struct remain, no container of the
+   old entry survives, and nothing outside the entry changes.  Every variant. *)
+Theorem C13_obj_set_replaces :
+  forall var s h p fs s',
+  h_kind h = KObj -> set_store var s h p (VObj fs) = (s', true) ->
+  (forall q, is_prefix_b p q = true -> (forall f, In f fs -> q <> p ++ [fst f]) -> get_leaf s' q = None) /\
+  (forall c, has_cont s' c = true -> is_prefix_b p c = true -> c = p) /\
+  (forall q, is_prefix_b p q = false -> get_leaf s' q = get_leaf s q).
+Proof. exact obj_set_replaces. Qed.
+Print Assumptions C13_obj_set_replaces.
 
 (* ... and exactly: the previous running configuration with the session's Sets replayed in order *)
 Theorem C13_commit_publishes_replay :
@@ -267,6 +279,22 @@ Example C13_frame_nonvacuous :
   frr st' = Some (running st') /\ running_oid st' = 3%N /\ startup_oid st' = 4%N.
 Proof. vm_compute. repeat split. Qed.
 Print Assumptions C13_frame_nonvacuous.
+
+(* a whole-entry Set: the old leaf a.x.m and the old sub-container a.x.k are gone, the new field a.x.n is
+   there, a.y.m is untouched; committed, the frame is exactly that *)
+Definition ex_oreg : registry :=
+  ex_reg ++ [ {| h_pat := [PLit 1; PWild]; h_kind := KObj; h_conts := [1; 2]%nat; h_deps := []; h_frr := false; h_typed := false |} ]%N.
+Example C13_obj_set_nonvacuous :
+  let r0 := {| leaves := [([1;3;2], SInt 1500); ([1;4;2], SInt 9000); ([1;3;7;8], SBool true)];
+               conts := [[1]; [1;3]; [1;4]; [1;3;7]] |}%N in
+  let st := run Repaired ex_oreg no_guard (init_state r0)
+              [OCreate; OSet 1 [1;3]%N (VObj [(9%N, SStr [97]%N)]) false] in
+  let '(st', r, _) := do_commit Repaired ex_oreg no_guard st 1 no_faults in
+  r = ROk /\ get_leaf (running st') [1;3;2]%N = None /\ get_leaf (running st') [1;3;7;8]%N = None /\
+  has_cont (running st') [1;3;7]%N = false /\ has_cont (running st') [1;3]%N = true /\
+  get_leaf (running st') [1;3;9]%N = Some (SStr [97]%N) /\ get_leaf (running st') [1;4;2]%N = Some (SInt 9000).
+Proof. vm_compute. repeat split. Qed.
+Print Assumptions C13_obj_set_nonvacuous.
 
 Example C13_idle_expiry_nonvacuous :
   let st14 := run Repaired ex_reg no_guard (init_state empty_store) [OCreate; OTick 14] in
